@@ -104,9 +104,11 @@ def generate(r, tier, prop):
                 spec["base"] = bases[0]
                 if len(bases) > 1:
                     spec["bases2"] = bases[1:]
-            if not bases and r.random() < 0.3:
-                spec["meta_only"] = True  # metaclass=DBCMeta used directly, DBC not inherited
             if not bases and r.random() < 0.15:
+                spec["dbc"] = False  # a plain class (contracts by decorators only); only classes on the contract base derive from it
+            if not bases and spec.get("dbc", True) and r.random() < 0.3:
+                spec["meta_only"] = True  # metaclass=DBCMeta used directly, DBC not inherited
+            if not bases and spec.get("dbc", True) and r.random() < 0.15:
                 spec["builtin"] = "list"  # derives from a built-in with its own slot-wrapper __init__ and defines no constructor
             info = {"bases": bases, "own": {}}
             classes[name] = info
@@ -135,6 +137,9 @@ def generate(r, tier, prop):
                 ms["post"] = [_cspec(r, forms) for _ in range(r.randint(0, 2))]
                 if ms["post"] and r.random() < 0.4:
                     ms["snaps"] = [{"name": "s_%s_%s_%d" % (name, m, k)} for k in range(r.randint(1, 2))]
+                if kind == "prop" and r.random() < 0.5:
+                    # a setter with contracts of its own (an overriding setter only strengthens: postconditions)
+                    ms["setter"] = {"pre": [] if base_has else [_cspec(r, forms) for _ in range(r.randint(0, 1))], "post": [_cspec(r, forms) for _ in range(r.randint(0, 2))]}
                 if kind in ("method", "static", "class") and (ms["pre"] or ms["post"]) and r.random() < 0.2:
                     ms["wraps"] = True  # a foreign functools.wraps decorator above the contract decorators
                 info["own"][m] = {"pre": ms["pre"], "kind": kind, "snaps": [s["name"] for s in ms.get("snaps", [])], "post": ms["post"]}
@@ -248,6 +253,12 @@ def generate(r, tier, prop):
     return scn
 
 
+def icontract_meta():
+    import icontract
+
+    return icontract.DBCMeta
+
+
 def _relation(m, new, old):
     w = m.world
     if new is None:
@@ -309,7 +320,7 @@ def _set_diff(a, b):
     return None
 
 
-def _declared(m, cname, member, touched):
+def _declared(m, cname, member, touched, accessor="get"):
     """(pre, snaps, post) site-id sets that the class declarations imply for ``cname.member`` (own contracts plus, for an
     override, those of every direct base providing the member; a class that does not define the member takes the first
     provider in its MRO).  None where the history leaves the plain case (re-exports, shared implementations, members
@@ -328,6 +339,26 @@ def _declared(m, cname, member, touched):
     if "%s.%s" % (cname, member) in touched:
         return None
     bases = ([cs["base"]] if cs.get("base") else []) + list(cs.get("bases2", ()))
+    if own and accessor == "set":
+        o = own[0]
+        if o.get("kind") != "prop":
+            return None
+        st = o.get("setter")
+        unit = "%s.%s.set" % (cname, member)
+        pre, post = set(), set()
+        if st is not None:
+            pre = {"%s/pre%d" % (unit, k) for k in range(len(st.get("pre", ())))}
+            post = {"%s/post%d" % (unit, k) for k in range(len(st.get("post", ())))}
+        for b in bases:
+            if _provides(m, b, member):
+                e = _declared(m, b, member, touched, "set")
+                if e is None:
+                    return None
+                pre |= e[0]
+                post |= e[2]
+        if st is None:
+            return None  # the class defines the property without a setter of its own: the accessor is not re-created here
+        return (pre, set(), post)
     if own:
         o = own[0]
         if o.get("kind", "method") in ("alias", "shared"):
@@ -348,7 +379,7 @@ def _declared(m, cname, member, touched):
     for k in w.classes[cname].__mro__[1:]:
         nm = _world_name(m, k)
         if nm is not None and any(x["name"] == member for x in w.cspec[nm].get("methods", ())):
-            return _declared(m, nm, member, touched)
+            return _declared(m, nm, member, touched, accessor)
     return None
 
 
@@ -440,7 +471,11 @@ def execute(scn, want):
                 name = None
             # ---------------- C18.R1: registration hook
             if want == "C18":
-                if op in ("class", "bad") and exc is None and name is not None and name in m.world.classes:
+                if op in ("class", "bad") and exc is None and name is not None and name in m.world.classes and not isinstance(m.world.classes[name], icontract_meta()):
+                    # a plain class (not created through the inheriting metaclass) is not announced
+                    if announced:
+                        violations.append({"rule": "C18.R1", "classifier": "plain-class-announced", "detail": {"step": si, "class": name}})
+                elif op in ("class", "bad") and exc is None and name is not None and name in m.world.classes:
                     ok_classes += 1
                     cls = m.world.classes[name]
                     if len(announced) != 1 or announced[0] is not cls:
@@ -567,7 +602,13 @@ def execute(scn, want):
                     gp = _flat((got or {}).get("pre") or [])
                     gs = _flat((got or {}).get("snaps") or [])
                     gq = _flat((got or {}).get("post") or [])
-                    for role, e_, g_ in (("pre", exp[0], gp), ("snaps", exp[1], gs), ("post", exp[2], gq)):
+                    checks = [("pre", exp[0], gp), ("snaps", exp[1], gs), ("post", exp[2], gq)]
+                    if kind_ == "prop" and ms.get("setter") is not None:
+                        es = _declared(m, name, ms["name"], touched, "set")
+                        gset = fp_new.get(ms["name"] + ".set")
+                        if es is not None:
+                            checks += [("set-pre", es[0], _flat((gset or {}).get("pre") or [])), ("set-post", es[2], _flat((gset or {}).get("post") or []))]
+                    for role, e_, g_ in checks:
                         if e_ != g_:
                             violations.append(
                                 {
